@@ -230,14 +230,14 @@ Options:
 		insertGen,
 		*insertFile,
 	)
-	och <- opshell.CLine{Prompt: shell.WrapInColor(
-		Prompt,
-		opshell.ColorCyan,
-	)}
 	if nil != err {
 		log.Fatalf("Error setting up shell: %s", err)
 	}
 	defer cleanup()
+	och <- opshell.CLine{Prompt: shell.WrapInColor(
+		Prompt,
+		opshell.ColorCyan,
+	)}
 
 	/* Warn the user if the insertion file isn't there or looks empty. */
 	if "" != *insertFile {
